@@ -1,4 +1,4 @@
-* C07 non-vacuity: a dataset reference that ignores the limit must be rejected (DSAccepted violated)
+\* C07 non-vacuity: a dataset reference that ignores the limit must be rejected (DSAccepted violated)
 SPECIFICATION SpecDS
 CONSTANTS
   Shapes <- ShapesDS
